@@ -678,8 +678,9 @@ def c02(run):
     return judge(run, nt_has_tree_nodes, chunk_events=800)
 
 
-def slot_scenarios(run, depth, slot="all", layouts=("spaces",)):
-    out, st, printed = C.run_model("MC_Slots", workers=8, timeout=3000, wdir=run.wdir, env_extra={"DEPTH": str(depth), "SLOT": slot})
+def slot_scenarios(run, depth, slot="all", layouts=("spaces",), mode="slots"):
+    out, st, printed = C.run_model("MC_Slots", workers=8, timeout=3000, wdir=run.wdir,
+                                   env_extra={"DEPTH": str(depth), "SLOT": slot, "MODE": mode})
     run.model_states += st.get("distinct", 0)
     run.model_transitions += st.get("generated", 0)
     run.models.append({"module": "MC_Slots", "env": {"DEPTH": depth, "SLOT": slot}, "distinct": st.get("distinct", 0)})
@@ -698,9 +699,25 @@ def slot_scenarios(run, depth, slot="all", layouts=("spaces",)):
         fr = frames[x["slot"]]
         toks = fr["pre"] + [lex[v] for v in x["fill"]] + fr["suf"]
         nwell += 1 if x["v"]["ok"] else 0
-        for mode in layouts:
-            scs.append(piece_scenario([("a", D.layout(toks, run.rng, mode=mode))], f"mc-slot-{x['slot']}", validate=False))
+        for lay in layouts:
+            if mode == "recover":
+                scs.append(recovery_scenario(fr["pre"], [lex[v] for v in x["fill"]], fr["suf"], run.rng, lay, f"mc-rec-{x['slot']}"))
+            else:
+                scs.append(piece_scenario([("a", D.layout(toks, run.rng, mode=lay))], f"mc-slot-{x['slot']}", validate=False))
     return scs, nwell
+
+
+def recovery_scenario(pre, garbage, suf, rng, lay, src):
+    """pre + garbage + suf[0] (the terminator) + suf[1:]; the Add event names the piece range of the garbage member"""
+    toks = pre + garbage + suf
+    pcs = D.layout(toks, rng, mode=lay)
+    # piece indices (1-based) of the non-trivia pieces
+    tix = [i + 1 for i, pc in enumerate(pcs) if pc[0] not in ("WS", "LCOM", "BCOM", "DOC")]
+    g1 = tix[len(pre)]
+    g2 = tix[len(pre) + len(garbage)]
+    ops = [{"op": "new", "i": 1},
+           {"op": "add", "i": 1, "id": "a", "text": D.text_of(pcs), "pieces": pcs, "parsed": True, "garbage": [g1, g2]}]
+    return {"sid": "", "src": src, "ops": ops}
 
 
 def nt_syntax_error(sc, evs):
@@ -845,3 +862,34 @@ def m_c20(kf, fail, sc, evs):
             continue
         return False
     return seen_defect
+
+
+def nt_recovered(sc, evs):
+    return any(e["ev"] == "add" and e.get("pobs", {}).get("has_tree") and e["pobs"]["diags"] for e in evs)
+
+
+@plan("C14")
+def c14(run):
+    q = run.tier == "quick"
+    scs, _ = slot_scenarios(run, 2 if q else 3, layouts=("spaces",) if q else ("spaces", "mixed"), mode="recover")
+    run.add(scs)
+    # random longer garbage (up to 12 tokens) in the same frames
+    out, st, printed = C.run_model("MC_Slots", workers=4, timeout=600, wdir=run.wdir, env_extra={"DEPTH": "0", "SLOT": "all", "MODE": "recover"})
+    frames = next(json.loads(s[7:]) for s in printed if s.startswith("FRAMES "))
+    lex = next(json.loads(s[4:]) for s in printed if s.startswith("LEX "))
+    for _ in range(600 if q else 20000):
+        slot = run.rng.choice(sorted(frames))
+        bad = {",", "{", "}"} if slot.startswith("re") else {";", "{", "}"}
+        voc = [v for v in sorted(lex) if v not in bad]
+        g = [lex[run.rng.choice(voc)] for _k in range(run.rng.randint(3, 12))]
+        scs2 = recovery_scenario(frames[slot]["pre"], g, frames[slot]["suf"], run.rng, run.rng.choice(["spaces", "mixed"]), f"rnd-rec-{slot}")
+        run.add([scs2])
+    run.rule = ("TLC enumerates MC_Slots in 'recover' mode: 11 frames (interface / parcelable / enum bodies with 0-3 well-formed "
+                "siblings before and after the slot) x every garbage member G up to length 2 (quick) / 3 (thorough) over the "
+                "vocabulary without the item's terminators and braces, followed by its normal terminator; plus random garbage of "
+                "3-12 tokens. The trace spec parses the document without the garbage member (siblings) and with it (fillings that "
+                "happen to be members are not C14 cases) and demands: a tree; the member list with the members salvaged from inside "
+                "the garbage removed equals the siblings, in order and unchanged; at least one Error; every syntax Error inside the "
+                "extent of the garbage member (first garbage token .. terminator). Non-trivial = distinct scenario with a tree and "
+                "at least one diagnostic.")
+    return judge(run, nt_recovered, chunk_events=3000)
